@@ -144,6 +144,7 @@ def feed(job):
     child = ds.DistributorQueue(p.queue_rx_dali)
     exc = []
     pos = 0
+    pre = []
     # the reads arrive with pauses between them (a busy event loop, a stalling USB adapter): the clocks a receiver could
     # look at jump by anything between nothing and a minute from one read to the next
     import time as _t
@@ -158,14 +159,27 @@ def feed(job):
             except Exception as e:  # noqa: recorded
                 exc.append([ci, type(e).__name__])
             pos += size
+            # the subscriber takes what has been delivered so far -- and it owns it: in every second stream it scribbles
+            # on the command objects' frames, which must not reach anything delivered later
+            while not child.empty():
+                c = child.get_nowait()
+                fb = _frame_bytes(c)
+                pre.append([8 * len(fb), fb])
+                if len(data) % 2:
+                    try:
+                        f = c.frame
+                        for k in range(len(f)):
+                            f[k] = 1 - f[k]
+                    except Exception:
+                        pass
     finally:
         _t.monotonic, _t.time, _t.perf_counter = saved
-    return _collect(proto, data, chunks, p, child, exc)
+    return _collect(proto, data, chunks, p, child, exc, pre)
 
 
-def _collect(proto, data, chunks, p, child, exc):
+def _collect(proto, data, chunks, p, child, exc, pre=()):
     from dali.driver import serial as ds
-    got = {"raw": [], "conf": [], "info": [], "cmd": []}
+    got = {"raw": [], "conf": [], "info": [], "cmd": [list(x) for x in pre]}
 
     def drain(q):
         items = []
